@@ -407,7 +407,7 @@ def read_dir(i, s):
     if w.fails('read_dir', s):
         return Err(io_error('PermissionDenied'))
     ents = [Ok(Struct('DirEntry', {'path': c[0], 'kind': Str(c[1])})) for c in w.children(s)]
-    return Ok(I.unordered(ents))
+    return Ok(I.unordered(ents, dir_listing=True))
 
 
 class DirEntryModel:
